@@ -4,6 +4,18 @@
 // reports, after every call, the result, the `stat` and the bytes of the file.
 #![allow(dead_code, unused_imports)]
 use super::*;
+// Named explicitly so that this probe does not depend on which names the parent file happens to import
+// (a clean-up of an unused import there must not break the hooked build).
+#[allow(unused_imports)]
+use crate::hooks::Hook;
+#[allow(unused_imports)]
+use crate::hooks::HookType;
+#[allow(unused_imports)]
+use acme_common::crypto::KeyPair;
+#[allow(unused_imports)]
+use std::path::Path;
+#[allow(unused_imports)]
+use std::path::PathBuf;
 use serde_json::{json, Value};
 use std::os::unix::fs::{MetadataExt, PermissionsExt};
 
